@@ -184,12 +184,28 @@ func (j *jsonBuilder) flattenObject(value *astjson.Value, path ast.Path) ([]*ast
 // flattenList flattens a list of JSON values into a list of values.
 // This is needed because we want to get the values from the list by its path to merge them with the response values.
 func (j *jsonBuilder) flattenList(items []*astjson.Value, path ast.Path) ([]*astjson.Value, error) {
-	if path.Len() == 0 {
-		return items, nil
-	}
-
 	result := make([]*astjson.Value, 0)
 	for _, item := range items {
+		// Nested lists ([[T]]): the context elements are built from the items of the innermost lists,
+		// so we need to unwrap the inner lists. A null inner list has no items and therefore no context element.
+		if item.Type() == astjson.TypeNull {
+			continue
+		}
+
+		if item.Type() == astjson.TypeArray {
+			values, err := j.flattenList(item.GetArray(), path)
+			if err != nil {
+				return nil, err
+			}
+			result = append(result, values...)
+			continue
+		}
+
+		if path.Len() == 0 {
+			result = append(result, item)
+			continue
+		}
+
 		values, err := j.flattenObject(item, path)
 		if err != nil {
 			return nil, err
